@@ -267,6 +267,9 @@ def gen_ns_case(rng, kind=None, rbuild_factors=(1,)):
             pos = [round(rng.uniform(-0.3 * span, 1.3 * span), 3) for _ in range(3)]
         else:   # close to another atom
             pos = [round(v + rng.uniform(-2, 2), 3) for v in rng.choice(atoms)[:3]]
+        if rng.random() < 0.12:
+            # on a cell face, just below / above it: the wrapped fractional coordinate is at the very end of [0, 1)
+            pos[rng.randrange(3)] = rng.choice([-1e-17, -1e-18, -1e-13, 0.0, 1e-17, -3e-16])
         alt = rng.choice(['-', '-', '-', 'A', 'B'])
         el = rng.choice(['C', 'C', 'C', 'H', 'D'])
         atoms.append(pos + [alt, el])
